@@ -132,5 +132,24 @@ Theorem uc_int_bounds_refuted : exists nc np nm nx,
   proto_args_ok nc np (MArray nm) (MScalar 1%Z) = true /\ 0 < nx /\ uc_int_bounds nc np nm nx = None.
 Proof. exists 2, 2, [1;1]%Z, 3. repeat split. lia. Qed.
 
+(** * object lifecycle (Model section 12) *)
+Lemma session_app s0 a b : session s0 (a ++ b) = session (session s0 a) b.
+Proof. apply fold_left_app. Qed.
+(** whatever happened before (any initial object, any history of copies, setters, in-place writes and samplings): once the
+    caller has set the decision vector, the shape and the cross map, the fields are exactly those values - nothing of the
+    history survives, so every later sampling is the model's sampling of those values *)
+Theorem session_last_write_wins : forall s0 hist d nc np x tail,
+  Forall (fun o => match o with OpCopy | OpDeepCopy | OpSetRng | OpSample => True | _ => False end) tail ->
+  session s0 (hist ++ [OpSetDecn d; OpSetShape nc np; OpSetXmap x] ++ tail) = {| st_nc := nc; st_np := np; st_decn := d; st_xmap := x |}.
+Proof.
+  intros s0 hist d nc np x tail Ht. rewrite !session_app. cbn [session fold_left apply_op st_nc st_np st_decn st_xmap].
+  induction Ht as [|o tl Ho _ IH]; [reflexivity|]. cbn [fold_left]. destruct o; try contradiction; exact IH.
+Qed.
+Theorem session_state_determines_sample : forall s0 s0' h h', session s0 h = session s0' h' ->
+  sample_subset (session s0 h) = sample_subset (session s0' h') /\ sample_binary (session s0 h) = sample_binary (session s0' h') /\
+  sample_integer (session s0 h) = sample_integer (session s0' h') /\ sample_mate (session s0 h) = sample_mate (session s0' h') /\
+  sample_integer_mate (session s0 h) = sample_integer_mate (session s0' h') /\ sample_binary_mate (session s0 h) = sample_binary_mate (session s0' h').
+Proof. intros s0 s0' h h' E. rewrite E. repeat split. Qed.
+
 Print Assumptions cfg_binary_mate_spec.
 Print Assumptions cfg_real_mate_q_spec.
